@@ -1042,6 +1042,86 @@ pub fn defend_renamed_case(seed: u64, l: &mut Local) {
     }
 }
 
+/// A name the daemon held before is registered again with other data (after an unregister, or as an update of the
+/// announced service); while the new data is probed a response claims the name with different data.
+pub fn conflict_after_history_case(seed: u64, l: &mut Local) {
+    let mut rng = Rng::new(seed);
+    let mut w = World::new(seed);
+    w.set_stepping(Stepping::Lazy);
+    let jitter = *rng.pick(&[0u64, 40, 125, 249]);
+    let h = w.add_host_with(scen::single_v4(), move |g| g.jitter_const = Some(jitter));
+    w.set_ip_check_interval(h, 3600);
+    let t0 = w.now();
+    let label = *rng.pick(&["held-before", "Front Desk", "x (7)"]);
+    let addrs: Vec<IpAddr> = vec!["10.0.0.5".parse().unwrap()];
+    let host_s = "history-host.local.";
+    let reg1 = World::reg_info(T_TY, label, host_s, &addrs, 80, &[("k", Some(b"first"))]);
+    let fullname = reg1.fullname.clone();
+    w.register(h, reg1);
+    let inst = scen::wire_name(&format!("{label}.{T_TY}"));
+    w.run_until(t0 + 3000 + rng.below(2000));
+    let withdrawn = rng.chance(1, 2);
+    if withdrawn {
+        w.unregister(h, &fullname);
+        let now = w.now();
+        w.run_until(now + 1500 + rng.below(3000));
+    }
+    let keep_port = rng.chance(1, 3);
+    let reg2 = World::reg_info(T_TY, label, host_s, &addrs, if keep_port { 80 } else { 81 }, &[("k", Some(b"second"))]);
+    let idx_reg2 = w.trace.entries.len();
+    let t_reg2 = w.now();
+    w.register(h, reg2);
+    // somebody else claims the instance name while the new data is probed
+    let at = jitter + 5 + rng.below(740);
+    w.run_until(t_reg2 + at);
+    let mut m = Message::response();
+    let kind = if keep_port || rng.chance(1, 2) { "txt" } else { "srv" };
+    if kind == "txt" {
+        m.answers.push(wire::txt(&inst, 4500, b"\x08k=theirs".to_vec()));
+    } else {
+        m.answers.push(wire::srv(&inst, 120, 9, &scen::wire_name("somebody-else.local.")));
+    }
+    m.answers[0].class |= wire::FLUSH;
+    let idx = w.trace.entries.len();
+    w.inject_msg(h, 2, scen::peer4(77), &m);
+    w.settle();
+    let t_c = w.now();
+    w.run_until(t_c + 6000);
+    l.evaluations += 1;
+    l.distinct.insert(util::fnv_str(&format!("R3|{label}|{withdrawn}|{keep_port}|{kind}|{jitter}|{}", at / 25)));
+    if w.trace.deaths().any(|d| matches!(d.ev, Ev::Death { panicked: true, .. })) {
+        l.inconclusive.push(format!("daemon died in a C08 history scenario (seed {seed})"));
+        return;
+    }
+    let txs = scen::tx_msgs(&w.trace, 0);
+    // judged only if the daemon was probing for the name when the claim arrived: it asked its probe question
+    // after the second registration, not longer than 250 ms ago, and had not announced the new data yet
+    let probes_before: Vec<u64> = txs.iter().filter(|tx| tx.idx > idx_reg2 && tx.idx < idx && tx.msg.is_query() && scen::has_question(tx.msg, &inst, wire::T_ANY)).map(|tx| tx.t).collect();
+    let announced_between = txs.iter().any(|tx| tx.idx > idx_reg2 && tx.idx < idx && tx.msg.is_response() && tx.multicast && tx.msg.answers.iter().any(|r| r.rtype == wire::T_PTR && r.ttl > 0));
+    let Some(last_probe) = probes_before.iter().max() else { return };
+    if announced_between || t_c > last_probe + 245 {
+        return;
+    }
+    l.act("N1-after-history");
+    let new_label = next_instance_label(label.as_bytes());
+    let mut new_inst = inst.clone();
+    new_inst[0] = new_label;
+    let old_announced = txs.iter().find(|tx| tx.idx > idx && tx.msg.is_response() && tx.multicast && tx.msg.answers.iter().any(|r| r.ttl > 0 && r.rtype == wire::T_PTR && matches!(&r.rdata, RData::Ptr(n) if wire::names_eq_nocase(n, &inst))));
+    let new_announced = txs.iter().any(|tx| tx.idx > idx && tx.msg.is_response() && tx.multicast && tx.msg.answers.iter().any(|r| r.ttl > 0 && r.rtype == wire::T_PTR && matches!(&r.rdata, RData::Ptr(n) if wire::names_eq_nocase(n, &new_inst))));
+    let hist = if withdrawn { "registered-again-after-unregister" } else { "update-of-announced-service" };
+    if let Some(tx) = old_announced {
+        l.violate(
+            Violation::new("N1", format!("N1/contested-name-announced/{hist}/conflict-{kind}"), format!("{} ms after a response claimed {} with other data, while the daemon was probing for it, the daemon announced that very name", tx.t - t_c, wire::escaped(&inst)))
+                .with(json!({"seed": seed, "trace": scen::witness_window(&w.trace, t_reg2, tx.t + 50, 60)})),
+        );
+    } else if !new_announced {
+        l.violate(
+            Violation::new("N1", format!("N1/renamed-service-never-announced/{hist}/conflict-{kind}"), format!("a response claimed {} with other data while the daemon was probing for it; within six seconds the service was not announced as {}", wire::escaped(&inst), wire::escaped(&new_inst)))
+                .with(json!({"seed": seed, "trace": scen::witness_window(&w.trace, t_reg2, t_c + 6000, 90)})),
+        );
+    }
+}
+
 // ---------------------------------------------------------------------------
 // Part D: two or three daemons claim the same names on one loss-free link
 
@@ -1213,7 +1293,7 @@ pub fn run(report: &Report, tier: &Tier) {
          daemons on one loss-free link registering the same instance and host name with different ports and addresses at offsets from a grid (every \
          ms within 8 ms of 0/250/500/750/1000, every 25 ms to 3 s, 4 s, 6 s) x jitters {0,1,100,125,249}, one run in three with all daemons on one machine (same interface and source address); distinct by (names, conflict kind) / record-set pair / (offsets, jitters)",
     );
-    for r in ["N1", "N1-renamed", "N1-event", "N1-probed", "N4-answers", "N5", "N2", "N3", "N3b", "N6"] {
+    for r in ["N1", "N1-renamed", "N1-event", "N1-probed", "N1-after-history", "N4-answers", "N4-defend-renamed", "N5", "N2", "N3", "N3b", "N3b-foreign-srv", "N6"] {
         report.floor(r, 30);
     }
     report.assume("a counter already at 2^32-1 may count on or start a fresh suffix; a conflict delivered after the third probe is 250 ms old is not 'while probing' and is not judged (DESIGN §12)");
@@ -1226,12 +1306,12 @@ pub fn run(report: &Report, tier: &Tier) {
         4..=8 => run_t(util::mix(seed, 0xC08_0000 + i), l),
         _ => run_d(i / 10, thorough, seed, l),
     });
-    let n2: u64 = if tier.thorough { 80_000 } else { 1_200 };
+    let n2: u64 = if tier.thorough { 120_000 } else { 1_800 };
     run_parallel(report, n2, threads(), tier.budget_s * 0.1, |i, l| {
-        if i % 2 == 0 {
-            defend_renamed_case(util::mix(seed, 0xC08_A000 + i), l);
-        } else {
-            foreign_srv_case(util::mix(seed, 0xC08_B000 + i), l);
+        match i % 3 {
+            0 => defend_renamed_case(util::mix(seed, 0xC08_A000 + i), l),
+            1 => foreign_srv_case(util::mix(seed, 0xC08_B000 + i), l),
+            _ => conflict_after_history_case(util::mix(seed, 0xC08_C000 + i), l),
         }
     });
 }
